@@ -456,6 +456,40 @@ def c07_custom_alloc():
     return gen
 
 
+def c02_toolpin():
+    """The setkey table on the command line: jwt-verify -a PIN with key files whose key carries an alg attribute."""
+    keys = [(octk(64, alg="HS512"), ["HS512", "HS256", "HS384", "RS256"]), (asym("rsa2048a", 1, "RS384"), ["RS384", "RS256", "PS384", "HS256"]),
+            (asym("p256a", 1, "ES256"), ["ES256", "ES384", "EdDSA"]), (asym("ed25519a", 1, "EdDSA"), ["EdDSA", "ES256"]),
+            (asym("rsa2048a", 1, "PS256"), ["PS256", "RS256", "PS512"])]
+
+    def gen(seed):
+        for k, pins in keys:
+            for pin in pins:
+                for spell in ("short", "long"):
+                    yield [dict(op="ToolPin", key=k, pin=pin, spell=spell)]
+    return gen
+
+
+def c16_faults():
+    """Loads of keys of every type into a fresh and into an existing key set, each followed by the removal routes; run
+    with every allocation request inside the loads failing once (--fault-only Load) and a leak check at the end of
+    every such run (--fault-leak): whatever a load does when memory runs short, the set stays a list that can be
+    released completely."""
+    sets = [[octk(32, alg="HS256", kid="k1"), asym("rsa2048a", 0, "RS256", kid="k2")],
+            [asym("p256a", 1, "ES256", kid="k3"), asym("ed25519a", 1, kid="k4")],
+            [defect(octk(32, kid="kb"), "k", "absent"), asym("p384a", 0, kid="k5"), octk(48, kid="k1")]]
+
+    def gen(seed):
+        for i, ks in enumerate(sets):
+            yield [dict(op="Load", ring=0, via="create", doc="keys", keys=ks),
+                   dict(op="Load", ring=0, via="load", doc="keys", keys=sets[(i + 1) % 3]),
+                   dict(op="Count", ring=0), dict(op="Find", ring=0, kid="k1"), dict(op="ItemGet", ring=0, index=1),
+                   dict(op="ItemFree", ring=0, index=0), dict(op="FreeBad", ring=0), dict(op="FreeAll", ring=0), dict(op="RingFree", ring=0)]
+            yield [dict(op="Load", ring=0, via="create_strn", doc="single", keys=ks[:1]),
+                   dict(op="Load", ring=0, via="load_strn", doc="keys", keys=ks), dict(op="RingFree", ring=0)]
+    return gen
+
+
 def c07_switch():
     """Keys loaded under one provider and released under the other (the provider is switched between the load and
     every removal route): whoever allocated the key object, removal releases it - leak check after every case."""
